@@ -45,3 +45,9 @@ add("C02", "exhaustive enumeration of lengths at every classification site + Hyp
     "compared with one reference table; 640 (thorough 8000) generated multi-file, multi-language trees of flat functions with exact "
     "lengths go through check_command in both quiet modes, checking exit status, listing, order, symbols, summary count and silence.",
     "flat functions only in part B; colours observed as rich Style objects; check_command invoked in-process")
+
+add("C18", "Hypothesis-generated report pairs and findings lists, rendered output parsed back and compared with the stored figures (differential text vs Markdown)",
+    "2400 (thorough 48000) generated cases: current/previous reports with shared, added and removed languages, and findings lists "
+    "around the 10-row cut-off, are rendered in text and Markdown (1 in 8 through report_command with files on disk); the tolerant "
+    "row parser recovers every figure and annotation, which must equal the stored numbers / exact differences.",
+    "trusts the row parsers in vf/props/c18.py; names are plain identifiers; locale C.UTF-8")
